@@ -48,10 +48,10 @@ package keeper
 //@ family pools   key types.KeyFarmPool value types.FarmPool prefix global:types.FarmPoolKey
 //@ family ruleF   key types.KeyRewardRule value types.RewardRule prefix types.PrefixRewardRule
 // (the first key component is a bech32 account address of this chain: fixed length, declared for the key-layout audit)
-//@ family farmers key types.KeyFarmInfo value types.FarmInfo prefix types.PrefixFarmInfo fixedlen 0
+//@ family farmers key types.KeyFarmInfo value types.FarmInfo prefix types.PrefixFarmInfo,global:types.FarmerKey fixedlen 0
 //@ family active  key types.KeyActiveFarmPool value str prefix types.PrefixActiveFarmPool,global:types.ActiveFarmPoolKey
 //@ family poolSeq key types.KeyFarmPoolSeq value uint64
-//@ family escrowF key types.KeyEscrowInfo value types.EscrowInfo
+//@ family escrowF key types.KeyEscrowInfo value types.EscrowInfo prefix global:types.EscrowInfoKey
 
 // every stored rule is stored under its own reward denomination
 //@ define rulesWF = forall p:Str :: forall d:Str :: has(ruleF, p, d) ==> get(ruleF, p, d).Reward == d
@@ -660,4 +660,16 @@ package keeper
 //@   lemma @return stakedUpd(old(pools), pool.Id, POOL(pool.Id)) if err == nil
 //@   lemma @return remDiff(old(ruleF), ruleF, pool.Id) if err == nil
 //@   ensures escrow:  err == nil && freshId(pool.Id) && old(escrowInv) ==> escrowInv
+//@ end
+
+// A proposal that does not pass is settled out of the proposal escrow alone: the farm escrow account - the stakes and
+// the reward budgets of all pools - is never drawn on (C05, C06), whichever way the refund goes.
+//@ func Keeper.refundEscrow(ctx, info)
+//@   property C05, C06
+//@   requires k.communityPoolName != "farm" && k.communityPoolName != "escrow_collector"
+// (the proposer signed the proposal: a key-holding account, not one of the module's own accounts)
+//@   requires addr(info.Proposer) != MOD && addr(info.Proposer) != COLLECTOR
+//@   modifies bal, escrowF
+//@   ensures farm_escrow_untouched: forall d:Str :: bal(MOD, d) == old(bal(MOD, d))
+//@   ensures reward_collector_untouched: k.communityPoolName != "reward_collector" ==> (forall d:Str :: bal(COLLECTOR, d) == old(bal(COLLECTOR, d)))
 //@ end
